@@ -3,7 +3,7 @@
    the SafeDurationCast statement. *)
 From BS Require Import Base ChronoSpec ChronoModel ChronoArith ChronoDecimal ChronoSweep ChronoCalendar ChronoYear
   ChronoSafe ChronoSafeAdd ChronoText ChronoTp ChronoTpParse ChronoTpRt ChronoTs ChronoRefute
-  ChronoDur ChronoDurPrint ChronoDurParse ChronoDurRt ChronoClassify ChronoClassify2 ChronoClassify3.
+  ChronoDur ChronoDurPrint ChronoDurParse ChronoDurRt ChronoClassify ChronoClassify2 ChronoClassify3 ChronoDurClassify.
 From Coq Require Import Lia.
 Local Open Scope Z_scope.
 
@@ -201,4 +201,17 @@ Proof.
       cbn [tf_sign tf_year tf_mo tf_d tf_h tf_mi tf_s tf_frac dt_y dt_mo dt_d dt_h dt_mi dt_s dt_ns].
       repeat split; vm_compute; intro H; discriminate H.
   - repeat split; vm_compute; reflexivity.
+Qed.
+
+(* ------------------------------------------------------------------ C15, classification of duration texts *)
+
+(* K42: a text outside the documented grammar is accepted;  K49: a documented text of a representable value is
+   refused because one component alone is not a whole number of ticks of the target *)
+Lemma c15_dur_classify_refuted :
+  (~ dur_grammar text_K42 /\ dur_parse Ps I64 text_K42 = Ok 3601) /\
+  (df_wf fields_K49 /\ dur_split Ph fields_K49 = true /\ dur_expected Ph I64 fields_K49 = Ok 1 /\
+   dur_parse Ph I64 (df_render fields_K49) = Err OutOfRange).
+Proof.
+  split; [split; [|exact w_K42] | exact w_K49].
+  apply space_not_grammar. unfold text_K42. do 6 right. left. reflexivity.
 Qed.
